@@ -191,6 +191,19 @@ CLAIMED["C05"] = (
     "DESIGN.md §3 C05",
     "Patched jump targets are tied to the pending-block nesting the check verifies; the run-time meaning of frames/captures themselves is trusted.")
 
+CLAIMED["C18"] = (
+    "sibling cross-check by labelled events over MIR: (AST node type, payload field) coverage and evaluate/assign order of the assignment tracker vs the code generator",
+    "Static rule check: every call of an evaluating function in the code generator and of a visiting function in "
+    "the tracker is labelled with the AST node type and payload field its argument derives from (traced through "
+    "iterators, closures and pattern matches in MIR); for every node type each field the generator evaluates must "
+    "be visited by the tracker (reviewed exclusions: multi-template name expressions), where the generator "
+    "evaluates a field before assigning another the tracker must not assign first, and a variable is reported "
+    "exactly when it is not assigned.  This decides soundness of the tracker's traversal against the engine's own "
+    "evaluation order for all templates; the implicit names (loop/self/super/caller) and lookups performed by host "
+    "objects are not decided.",
+    "DESIGN.md §3 C18",
+    "One known finding (macro argument defaults) is listed; its repair would change macro closure capture.")
+
 NOT_APPLICABLE = {
 }
 
